@@ -96,6 +96,11 @@ def model_check(ctx):
                 if not m or int(m.group(2)) == 0:
                     raise vlib.Infra("Updates_mc_quick: action %s never taken (vacuous model check)" % a)
         vlib.log("model check %s: %d distinct states, %.1fs" % (c, r.distinct, r.wall))
+    # the consumer: the Model of mputil.Group satisfies GroupJ, a line shared between occurrences does not
+    r = vlib.tlc_model_check(ctx, "UpdatesGroupMC", "UpdatesGroupMC.cfg", workers=1, timeout=900)
+    if "GROUPMC" not in r.out:
+        raise vlib.Infra("UpdatesGroupMC did not evaluate its assumptions:\n" + r.out[-2000:])
+    vlib.log("model check UpdatesGroupMC: assumptions hold, %.1fs" % r.wall)
     # the pinned loop exit must violate the geometry law at the design level (guards against a vacuous GeomJ)
     r = vlib.tlc_model_check(ctx, "Updates", "Updates_mc_pinned_geom.cfg", expect_ok=False, workers=w, timeout=600)
     if not (r.violation or "").startswith("GeomAt"):
@@ -105,7 +110,10 @@ def model_check(ctx):
 
 
 def _nontrivial(c):
-    """exercises the mechanism: some update is applicable at t2 (something is applied or rejected)"""
+    """exercises the mechanism: some update is applicable at t2 (something is applied or rejected); for kind
+    "group": the way is listed as a member at least once"""
+    if c["kind"] == "group":
+        return any(m["tgt"] == "way" for m in c["members"])
     return any(u["time"] <= c["t2"] for u in c["updates"])
 
 
@@ -161,7 +169,10 @@ def run(ctx):
                                        "entries with smp > 0 are TLC samples" % cfg)
     ctx.rule = ("cases = abstract (element, stored update list, t1 <= t2) of UpdatesGen plan %s, de-duplicated; "
                 "non-trivial = at least one update stamped at or before t2 (something is applied or rejected); "
-                "each case runs ApplyUpdatesUpTo three times, LineStringAt/LineString twice (ways), UpTo twice, both sorts" % cfg)
+                "each way/relation case runs ApplyUpdatesUpTo three times on copies of one element (own child list, shared "
+                "update list), LineStringAt on the element before and after (ways), LineString, UpTo twice, both sorts; "
+                "each group case runs mputil.Group on a member list naming the way 0..m times; group cases are non-trivial "
+                "when the way is a member" % cfg)
     ctx.assumptions = [
         "symbolic values: times 0..tmax, coordinates/changesets/versions small integers mapped injectively by the harness "
         "(five time profiles rotated over the cases, offset by the seed: 1 s / 1 ns / 1 h / 1 day steps, epoch, 2038, a "
@@ -169,6 +180,9 @@ def run(ctx):
         "the element's own Timestamp (unset / before / at / between / after the update stamps) and Committed (nil / "
         "earlier / equal / later) are rendered from the case (every combination in the smp = -1 plan entries, drawn by "
         "TLC per case elsewhere); no Judge mentions them: the property does not, so no answer may depend on them",
+        "'a copy' of an element = struct copy with its own child list and the same update list value (what Go code "
+        "does; the pinned ApplyUpdatesUpTo never writes to the list it was given)",
+        "mputil.Group is internal to the module and is bound with go:linkname (harness/internal/c15mp); the real code runs",
         "update indices are 0..n (n = first index beyond the child list); negative indices are outside the property",
         "updates carry non-zero coordinates; 'fully annotated' = every way node has a version or a location",
         "where a child's applicable updates are stored out of time order (or with equal stamps) the Judge accepts the "
